@@ -74,7 +74,8 @@ fn take_last_error() -> Option<Box<dyn Error>> {
 #[no_mangle]
 pub unsafe extern "C" fn last_error_message() -> *const c_char {
     match take_last_error() {
-        Some(err) => CString::new(err.to_string().as_bytes())
+        // The message can quote input data, a NUL character can't be part of a C string
+        Some(err) => CString::new(err.to_string().replace('\0', "\\0").as_bytes())
             .expect("Invalid Str")
             .into_raw(),
         None => std::ptr::null(),
